@@ -3,7 +3,11 @@
 Monitor (E4): a real master under continuous client load of short and long requests (one connection
 per request); the harness rewrites the config file (workers, GEN marker via raw_env) and sends 1-3
 HUPs at seeded instants; every client operation is logged and classified; afterwards the process
-table, the hook event log and probe requests are compared with the new configuration.
+table, the hook event log and probe requests are compared with the new configuration.  Further
+shapes: a client that keeps ONE connection and sends request after request on it across the reload
+(the application logs every request it is entered for), a pool of several dozen workers reloaded
+again and again (every old worker leaves at the same moment), and a second HUP with a changed file
+that arrives while the first reload is still forking (slow pre_fork hook).
 """
 import json
 import os
@@ -16,8 +20,9 @@ from vlib.common import Run, rng_for
 
 PROP = "C10"
 RULE = ("scenario = (worker class, HUP timing vector incl. two HUPs 50 ms apart, sequence of (workers, GEN) configurations, "
-        "client mix of short and 0.4-1.2 s requests from 8 concurrent clients); distinct = scenario tuple; non-trivial = at least "
-        "one request overlapping a HUP (measured)")
+        "client mix of short and 0.4-1.2 s requests from 8 concurrent clients, optionally one client reusing a single keep-alive "
+        "connection, a pool of 32 workers reloaded 8 times, a HUP landing while the previous reload forks); distinct = scenario "
+        "tuple; non-trivial = at least one request overlapping a HUP (measured)")
 
 
 def listener_inodes(srv):
@@ -59,12 +64,14 @@ def master_socket_inodes(pid):
     return out
 
 
-def client_loop(e4, srv, stop, log, rng_seed, idx):
+def client_loop(e4, srv, stop, log, rng_seed, idx, mix=None):
     rng = rng_for(rng_seed, "c10-client", idx)
     n = 0
     while not stop.is_set():
         n += 1
-        if rng.random() < 0.35:
+        if mix == "short":
+            path = "/pid"
+        elif rng.random() < 0.35:
             d = rng.choice([0.4, 0.8, 1.2])
             path = "/sleep/%s" % d
         else:
@@ -76,15 +83,67 @@ def client_loop(e4, srv, stop, log, rng_seed, idx):
             time.sleep(0.01)
 
 
+def keepalive_client(e4, srv, stop, klog, idx, nap):
+    """One HTTP/1.1 connection, request after request without 'Connection: close'; a new connection only after the server
+    announced 'Connection: close', closed the connection or failed a request.  Every request carries its own tag, which the
+    application writes to the phase log when it is entered for it."""
+    s = None
+    n = nth = 0
+    while not stop.is_set():
+        n += 1
+        tag = "k%d-%d" % (idx, n)
+        if s is None:
+            nth = 0
+            try:
+                s = e4.connect(srv.addr, 5)
+            except OSError as e:
+                klog.append({"tag": tag, "outcome": "refused", "err": repr(e), "data": b"", "nth": 0,
+                             "t_call": time.monotonic(), "t_done": time.monotonic()})
+                time.sleep(0.01)
+                continue
+        r = e4.request(srv.addr, "/nap/%s/%s" % (nap, tag), sock=s, close=False, timeout=15)
+        r["tag"] = tag
+        r["nth"] = nth
+        nth += 1
+        klog.append(r)
+        head = r["data"].split(b"\r\n\r\n")[0].lower()
+        if r["outcome"] != "ok" or b"connection: close" in head:
+            try:
+                s.close()
+            except OSError:
+                pass
+            s = None
+    if s is not None:
+        s.close()
+
+
+def wait_replaced(e4, srv, old, n, timeout):
+    """After a HUP: n booted workers, none of them from the old pool (None: it did not happen in time)."""
+    t0 = time.monotonic()
+    while time.monotonic() - t0 < timeout and e4.alive(srv.master_pid):
+        w = srv.wait_workers(n, 1.0)
+        if w and not (set(w) & set(old)):
+            return w
+        time.sleep(0.02)
+    return None
+
+
 def run_scenario(run, e4, sc):
     v = []
     info = {}
     wc = sc["class"]
     gens = sc["configs"]            # [(workers, gen)] - first is the initial configuration
-    settings = {"graceful_timeout": 10, "timeout": sc.get("timeout", 30), "raw_env": ["GEN=%d" % gens[0][1]]}
+    graceful = sc.get("graceful", 10)
+    settings = {"graceful_timeout": graceful, "timeout": sc.get("timeout", 30), "raw_env": ["GEN=%d" % gens[0][1]]}
+    if sc.get("keepalive"):
+        settings["keepalive"] = sc["keepalive"]
     if wc == "gthread":
         settings["threads"] = 4
     conf_extra = ""
+    if sc.get("slow_prefork"):
+        # widen the time the master spends forking the new pool (a pre_fork hook that does work)
+        conf_extra = ("def pre_fork(server, worker):\n    _ev('pre_fork', age=worker.age)\n"
+                      "    import time as _t\n    _t.sleep(%s)\n    _ev('pre_fork_done', age=worker.age)\n" % sc["slow_prefork"])
     if sc.get("slow_boot"):
         # widen the window between fork() and the worker installing its own signal handlers
         conf_extra = ("def post_fork(server, worker):\n    _ev('post_fork', age=worker.age, wpid=worker.pid)\n"
@@ -96,7 +155,7 @@ def run_scenario(run, e4, sc):
     threads = []
     try:
         srv.start()
-        if not srv.wait_workers(gens[0][0], 25) or not srv.wait_listening(5):
+        if not srv.wait_workers(gens[0][0], 40 if gens[0][0] > 8 else 25) or not srv.wait_listening(5):
             return v, "server did not boot: %s" % srv.stderr()[-300:], info
         ino0 = listener_inodes(srv)
         mino0 = master_socket_inodes(srv.master_pid) & ino0
@@ -104,7 +163,12 @@ def run_scenario(run, e4, sc):
             return v, "could not identify the master's listening socket inode", info
         log = []
         for i in range(sc["clients"]):
-            t = threading.Thread(target=client_loop, args=(e4, srv, stop, log, sc["seed"], i), daemon=True)
+            t = threading.Thread(target=client_loop, args=(e4, srv, stop, log, sc["seed"], i, sc.get("client_mix")), daemon=True)
+            t.start()
+            threads.append(t)
+        klog = []
+        for i in range(sc.get("keepalive_clients", 0)):
+            t = threading.Thread(target=keepalive_client, args=(e4, srv, stop, klog, i, sc.get("nap", 0.2)), daemon=True)
             t.start()
             threads.append(t)
         # pool changes by signal before the reload: the reload must still end with the *configured* number
@@ -125,10 +189,17 @@ def run_scenario(run, e4, sc):
             time.sleep(delay)
             srv.workers = nw
             srv.write_conf(raw_env=["GEN=%d" % gen])
+            old_pool = srv.worker_pids()
             t_hups.append(time.monotonic())
             srv.signal(signal.SIGHUP)
+            if sc.get("wait_replaced"):
+                # the next HUP only once this one has replaced the whole pool (or the master is gone)
+                if wait_replaced(e4, srv, old_pool, nw, 20):
+                    run.count("reloads_of_a_large_pool_completed")
+                if not e4.alive(srv.master_pid):
+                    break
         final_workers, final_gen = gens[-1]
-        time.sleep(3.0 + 1.3 + (sc.get("long_request") or 0))
+        time.sleep(max(3.0 + 1.3, (graceful + 2.0) if sc.get("keepalive_clients") else 0) + (sc.get("long_request") or 0))
         stop.set()
         for t in threads:
             t.join(20)
